@@ -26,6 +26,49 @@ def drv(text):
     return Splitter(text).split()
 
 
+def lines_of(lib):
+    out = []
+    for b in lib.blocks:
+        inner = getattr(b, "ignore_error_block", None)
+        b = b if inner is None else inner
+        out.append([b.start_line] + ([f.start_line for f in b.fields] if isinstance(b, Entry) else []))
+    return out
+
+
+def drv_stack(text):
+    import bibtexparser
+    return lines_of(Splitter(text).split()), lines_of(bibtexparser.parse_string(text))
+
+
+def task_stack(parts, label):
+    """the lines the splitter recorded are the lines parse_string (default stack) returns: no middleware of the default
+    stack re-creates a block or field without its line"""
+    eng = Engine()
+    rec = Recorder(eng)
+    text, pos, holes = sym_text(eng, parts)
+    E = eng.I.models.eq_simple
+    worlds = eng.run(drv_stack, [text])
+
+    def rp(m):
+        import logging
+        logging.disable(logging.CRITICAL)
+        t = eng.model_str(m, text)
+        a, b = drv_stack(t)
+        if a == b:
+            return None
+        return {"input": t, "observed": {"start lines after parse_string": b}, "expected": {"start lines recorded by the splitter": a}}
+    for W in worlds:
+        if W.exc is not None:
+            rec.require(W, True, "no-exception", lambda m: replay(eng.model_str(m, text)))
+            continue
+        a, b = W.result
+        same = len(a) == len(b) and all(len(x) == len(y) for x, y in zip(a, b)) and E(a, b)
+        rec.require(W, b_not(same), "default-stack-keeps-lines", rp)
+        if any(len(x) > 2 for x in a):
+            rec.witness("stack-entry-with-fields", W)
+    return rec.result(worlds=len(worlds), label=label)
+
+
 def native_check(text):
     """plain-Python oracle used for replay: returns None if the property holds on `text`"""
     import logging
@@ -190,7 +233,7 @@ def main():
     chk.assumptions = ["characters outside the alphabet are outside the claim (the alphabet has one representative per character class of the mark regex: each mark character, backslash, '@', a word character, blank, newline, '#')",
                        "CR, tab and form feed occur in the separate whitespace family (shorter texts); other Unicode whitespace is outside the claim",
                        "field-line clause: checked for fields with a non-empty key followed by optional whitespace and '='"]
-    chk.expected_vacuity = ["failed-block-present", "two-blocks"]
+    chk.expected_vacuity = ["failed-block-present", "two-blocks", "stack-entry-with-fields"]
     for L in range(LG, -1, -1):
         if L >= LG - 1 and L >= 2:
             for a in SIGMA_S:
@@ -220,6 +263,12 @@ def main():
         for L in (2, 1):
             chk.add_task(f"ws-tmpl-{n1}+X{L}+string", task, parts=[("lit", BLOCKS[n1]), ("sym", L, SIGMA_WS), ("lit", "\nx\n" + BLOCKS["string"])], label="ws-tmpl")
             chk.add_task(f"ws-tmpl-X{L}+{n1}", task, parts=[("sym", L, SIGMA_WS), ("lit", "y" + "\n" + BLOCKS[n1])], label="ws-tmpl")
+    LS = 2 if chk.tier == "quick" else 3
+    chk.bounds["after the default parse stack"] = f"'@string{{s = {{v}}}}' + X + an entry with a resolved reference, a braced, a quoted and a concatenated value + X', X/X' every text of length 0..{LS} (one of them empty): block and field lines equal those recorded by the splitter"
+    for L in range(LS, -1, -1):
+        chk.add_task(f"stack-X{L}-mid", task_stack, parts=[("lit", "@string{s = {v}}"), ("sym", L, SIGMA_S), ("lit", "\n@a{k,\n t = s,\n u = {x}, w = \"y\",\n z = s # {q}\n}")], label="stack")
+        if L:
+            chk.add_task(f"stack-X{L}-end", task_stack, parts=[("lit", "@string{s = {v}}\n@a{k,\n t = s,\n u = {x}\n}\n@b{j, t = s"), ("sym", L, SIGMA_S)], label="stack")
     chk.run()
 
 
